@@ -26,13 +26,15 @@ def _unbold_heading_transformer(element: Element) -> None:
 
         # Handle the case where the heading is bold and italic (StrongEmphasis inside Emphasis or vice versa)
         # ***text***  -> *text*
-        elif len(element.children) == 1 and isinstance(element.children[0], inline.Emphasis):
+        # (also after bold was removed above: what is left of "**_**text**_**" is bold-italic, and
+        # leaving it for the next formatting pass would make formatting non-idempotent).
+        if len(element.children) == 1 and isinstance(element.children[0], inline.Emphasis):
             emphasis_node = element.children[0]
-            if len(emphasis_node.children) == 1 and isinstance(
+            while len(emphasis_node.children) == 1 and isinstance(
                 emphasis_node.children[0], inline.StrongEmphasis
             ):
                 strong_node = emphasis_node.children[0]
-                emphasis_node.children = strong_node.children
+                emphasis_node.children = strong_node.children  # pyright: ignore
 
 
 def unbold_headings(doc: Document) -> None:
